@@ -5,7 +5,7 @@ from rules import anchors, common
 
 CLAIMED = True
 TECHNIQUE = "static analysis over type-checked MIR: sibling-predicate agreement (Log::enabled vs delivery gate), provenance of the tree maximum, dominance pairing of set_max_level with every logger installation/swap site"
-LEVEL_TEXT = """Static, all-paths decision of three structural clauses: (T1) Log::enabled and the delivery gate evaluate the same threshold predicate on the node returned by the same lookup, with target and level taken from the metadata/record; (T2) the tree maximum joins the node's own level with the recursive result for every child through max (never min, never root-only) and Logger::max_log_level returns it for the loaded root; (T3) every site that installs a logger (log::set_boxed_logger/set_logger) or swaps the shared snapshot (ArcSwap::store) is dominated by log::set_max_level(x) with x derived from the tree maximum of the very logger being installed; all set_max_level sites are accounted for (floor 4, 3 without config_parsing). The log facade's own macro filtering and the transient between set_max_level and store are not decided. (T7) one snapshot per call (C15.A1); (T8) accessor fidelity; (T9) raw-to-runtime fidelity (C14.K7); (T10) parents-first insertion with every named appender resolved (C01.R2)."""
+LEVEL_TEXT = """Static, all-paths decision of three structural clauses: (T1) Log::enabled and the delivery gate evaluate the same threshold predicate on the node returned by the same lookup, with target and level taken from the metadata/record; (T2) the tree maximum joins the node's own level with the recursive result for every child through max (never min, never root-only) and Logger::max_log_level returns it for the loaded root; (T3) every site that installs a logger (log::set_boxed_logger/set_logger) or swaps the shared snapshot (ArcSwap::store) is dominated by log::set_max_level(x) with x derived from the tree maximum of the very logger being installed; all set_max_level sites are accounted for (floor 4, 3 without config_parsing). The log facade's own macro filtering and the transient between set_max_level and store are not decided. (T7) one snapshot per call (C15.A1); (T8) accessor fidelity; (T9) raw-to-runtime fidelity (C14.K7); (T10) parents-first insertion with every named appender resolved (C01.R2). (T11) the chain interpreter of Appender::append (C03.F1 re-evaluated)."""
 LEVEL_NOTE = "Trusted: rustc MIR/callee resolution; the log crate's facade (macros compare against the published max level); arc-swap. Decides pairing/ordering/provenance on all paths of the install sites, not the numeric result for every configuration."
 EXPLANATION = """Decided: T1 same predicate for enabled() and delivery, T2 maximum over the whole tree, T3 install/swap => publish max level of that same logger (all sites, floors). Undecided: the log facade's macro behaviour; the short window between set_max_level and store in set_config."""
 DECIDED = ["T1 same lookup + predicate in Log::enabled and in delivery", "T2 max over own level and all children, recursively", "T3 set_max_level(max of installed logger) dominates every install/store site", "T4 every declared logger is inserted (C01.R13 re-evaluated)", "T5 implied intermediates gate with the parent's threshold (C01.R4 re-evaluated)", "T6 the effective logger is found by the longest-prefix walk (C01.R5 re-evaluated)"]
@@ -196,6 +196,8 @@ def run_cfg(ctx, p, cfg):
     c01.rule_inheritance_shape(ctx, p, cfg, "T5")   # an implied intermediate logger gates with its parent's threshold, a declared one with its own
     c01.rule_longest_prefix_walk(ctx, p, cfg, "T6")   # "its effective logger" is the node the walk stops at: the first unknown component ends it
     c01.rule_add_total(ctx, p, cfg, "T4")
+    from rules import c03
+    c03.rule_chain_interpreter(ctx, p, cfg, "T11")   # "reach exactly the appenders routing prescribes": an attached appender's sink runs unless its own filters reject - nothing else (a flag, a counter) stands in front of it (C03.F1 re-evaluated)
     c01.rule_ancestors_first(ctx, p, cfg, "T10")   # "reach exactly the appenders routing prescribes": every appender a logger names is resolved and handed to the tree, parents first (C01.R2 re-evaluated)
     from rules import c15, accessors
     c15.rule_one_snapshot(ctx, p, cfg, "T7")   # enabled() and log() each decide on one snapshot (C15.A1 re-evaluated)
